@@ -78,8 +78,10 @@ def verdict(ctx: Optional[Ctx], o: Any, is_gt: bool, p: Dict[str, Any]) -> Tuple
             if not o.semantic_score > t:
                 return False, "confidence"
     pos = None
+    exact = False
     if isinstance(o, DynamicObject) or o.state.position is not None:
         fr = O.frame_of(o)
+        exact = fr == "base_link"  # no arithmetic between the stored coordinate and the compared one
         if fr == "base_link" and p.get("transforms") is None:
             pos = np.array(o.state.position, dtype=float)
         elif o.state.position is not None and p.get("transforms") is not None:
@@ -99,8 +101,9 @@ def verdict(ctx: Optional[Ctx], o: Any, is_gt: bool, p: Dict[str, Any]) -> Tuple
             t = thr(lst)
             if t is None:
                 continue
-            if abs(val - t) < BOUNDARY:
-                return None, None
+            if abs(val - t) < BOUNDARY and not (exact and val == float(t)):
+                return None, None  # numerically delicate: undecided
+            # (an ego-frame coordinate that EQUALS its bound is not delicate: the bounds are strict, it is outside)
             if (upper and not val < t) or (not upper and not val > t):
                 return False, name
         mp = p.get("min_point_numbers")
@@ -291,6 +294,15 @@ def gen_case(r: random.Random) -> Dict[str, Any]:
         where = r.choice(["in", "in", "edge_in", "edge_out", "out"])
         if r.random() < 0.04:
             return 0.0, 0.0  # exactly above / below the ego origin: a planar distance of exactly zero is a distance
+        if r.random() < 0.06 and kind in ("xy", "ring"):
+            # exactly ON a bound of its label (strict bounds: outside)
+            if kind == "xy":
+                bx, by = p["max_x_position_list"][i], p["max_y_position_list"][i]
+                return r.choice([(bx, r.uniform(0, 0.9) * by), (-bx, r.uniform(-0.9, 0) * by), (r.uniform(0, 0.9) * bx, by), (r.uniform(-0.9, 0.9) * bx, -by)])
+            mx = p["max_distance_list"][i]
+            mn = p.get("min_distance_list", [0.0] * nl)[i]
+            d_ = mx if (r.random() < 0.5 or mn == 0) else mn
+            return r.choice([(d_, 0.0), (0.0, -d_), (-d_, 0.0)])
         eps = r.choice([1e-4, 1e-2, 0.5])
         if kind == "xy":
             bx, by = p["max_x_position_list"][i], p["max_y_position_list"][i]
